@@ -275,11 +275,13 @@ def new_module(pym, cls, param, x, scaling=None, aset=None):
     return sig, getattr(pym, cls)(sig, **kw)
 
 
-def unscaled_value(pym, cls, param, xs):
-    """'approx': the same aggregation, no scaling, no active set, fresh module on the selected entries"""
-    _, tw = new_module(pym, cls, param, xs)
-    tw.response()
-    return scalar(tw.sig_out[0].state)
+def unscaled_value(twin, xs):
+    """'approx': the same aggregation with no scaling and no active set evaluated on the selected entries.  The twin
+    (sig, module) is a measuring device built once per case: an unscaled aggregation keeps no history (its agreement
+    with the textbook formula is monitored in explorer 2); constructing pyMOTO objects costs ~1-7 ms each."""
+    twin[0].state = np.array(xs, dtype=float)
+    twin[1].response()
+    return scalar(twin[1].sig_out[0].state)
 
 
 def respond(pym, m, x, opt, vec):
@@ -455,7 +457,7 @@ def exec_agg(pym, case):
 # --------------------------------------------------------------------------------------------------------------
 # explorer 3: AggScaling histories
 # --------------------------------------------------------------------------------------------------------------
-def run_history(pym, case, seq):
+def run_history(pym, case, seq, twin):
     """One sequence of response() calls on fresh objects.  Returns (ncalls, violation|None, tag, inadmissible)."""
     cls, prm, d = case['cls'], case['param'], case['damping']
     tabs = case['tables']
@@ -478,7 +480,7 @@ def run_history(pym, case, seq):
             return k, None, 'inadmissible', xs
         if st == 'bad':
             return k + 1, xs, 'bad', None
-        approx = unscaled_value(pym, cls, prm, xs)
+        approx = unscaled_value(twin, xs)
         true = agg.true_extreme(xs, which)
         s_prev = model.s
         s_ref = model.step(true, approx)
@@ -512,8 +514,9 @@ def exec_hist(pym, case):
         seqs = list(itertools.product(range(len(case['tables'])), repeat=case['depth']))
     trans = 0
     prefixes = set()
+    twin = new_module(pym, case['cls'], case['param'], [1.0])
     for seq in seqs:
-        n, v, tag, inad = run_history(pym, case, seq)
+        n, v, tag, inad = run_history(pym, case, seq, twin)
         trans += n
         for k in range(1, n + 1):
             prefixes.add(seq[:k])
